@@ -311,14 +311,16 @@ Definition no_missing {A} (r : res A) : res A :=
   match r with Err EMissingSignature => Err (EOther "not-the-missing-signature-value") | other => other end.
 Definition relabel {A} (e : err) (r : res A) : res A := match r with Ok a => Ok a | Err _ => Err e end.
 
-(* etreeutils.NSUnmarshalElement(ctx, el, &types.Signature{}) : NSDetatch, serialise, xml.Unmarshal *)
+(* etreeutils.NSUnmarshalElement(ctx, el, &types.Signature{}) : NSDetatch, serialise, xml.Unmarshal.  goxmldsig serialises
+   with etree's DEFAULT write settings (U+000D raw, read back as U+000A): Schema.unmarshal_element_original -- gosaml2's
+   repair of its own xmlUnmarshalElement (F13) does not reach this code *)
 Definition unmarshal_signature (ctx : nsctx) (el : node) : res signature :=
   do det <- relabel (EOther "reserved-ns") (detach ctx el);
-  do v <- relabel e_unmarshal (unmarshal_element dsig_schema "Signature" det);
+  do v <- relabel e_unmarshal (unmarshal_element_original dsig_schema "Signature" det);
   Ok (to_signature v).
 (* xml.Unmarshal(canonicalSignedInfoBytes, &types.SignedInfo{}) after [reparse] *)
 Definition unmarshal_signed_info (n : node) : res signed_info :=
-  do v <- relabel (EOther "si-unmarshal") (unmarshal_element dsig_schema "SignedInfo" n);
+  do v <- relabel (EOther "si-unmarshal") (unmarshal_element_original dsig_schema "SignedInfo" n);
   Ok (to_signed_info v).
 
 (* ================================================================ validate.go : findSignature *)
